@@ -1689,7 +1689,12 @@ pub mod maps {
                 }
                 i += 1;
             }
-            self.n = 0;
+            // LR: the memory image of a dropped snapshot stays as it was (frees are
+            // virtualised: a reader earlier in time but later in execution order
+            // must still see what it would have seen)
+            if !super::is_lr() {
+                self.n = 0;
+            }
         }
     }
     impl<K: Copy, V: Clone, const N: usize> Clone for FixedMap<K, V, N> {
